@@ -26,10 +26,8 @@ Section All.
 Variable dbg : bool.
 Variable hp hpo : list N -> result host.
 Variable hd : host -> list N.
-Hypothesis HOK : HostOK2 hp hpo hd.
-
-Let HRT : HostRT hp hpo hd := proj1 HOK.
-Let HAb : host_above hp hpo hd := proj1 (proj2 HOK).
+Hypothesis HRT : HostRT hp hpo hd.
+Hypothesis HAb : host_above hp hpo hd.
 
 Notation Canon := (Canon hp hpo hd).
 
@@ -317,23 +315,28 @@ Definition all_calls (dbg : bool) (hp hpo : list N -> result host) (hd : host ->
      /\ (usv_list x -> (nskipn (host_end u) (ser u) = [] -> first_ok (rev x)) ->
          parse_url dbg hp hpo hd None None (splice_host u x) = POk u')).
 
-Theorem all_canon dbg hp hpo hd u : HostOK2 hp hpo hd -> Canon hp hpo hd u -> all_calls dbg hp hpo hd u.
+Theorem all_canon dbg hp hpo hd u : HostRT hp hpo hd -> host_above hp hpo hd -> Canon hp hpo hd u -> all_calls dbg hp hpo hd u.
 Proof.
-  intros HOK C. unfold all_calls.
-  split; [intros x u'; exact (all_set_fragment dbg hp hpo hd HOK u x u' C)|].
-  split; [intros x u'; exact (all_set_query dbg hp hpo hd HOK u x u' C)|].
-  split; [intros n u'; exact (all_set_port dbg hp hpo hd HOK u n u' C)|].
-  split; [intros y u'; exact (all_set_password dbg hp hpo hd HOK u y u' C)|].
-  split; [intros x u'; exact (all_set_username dbg hp hpo hd HOK u x u' C)|].
-  split; [intros x u'; exact (all_set_path dbg hp hpo hd HOK u x u' C) | intros x u'; exact (all_set_host dbg hp hpo hd HOK u x u' C)].
+  intros HRT HAb C. unfold all_calls.
+  split; [intros x u' H1 H2 H3; eapply all_set_fragment; eassumption|].
+  split; [intros x u' H1 H2 H3; eapply all_set_query; eassumption|].
+  split; [intros n u' H1 H2 H3; eapply all_set_port; eassumption|].
+  split; [intros y u' H1 H2 H3; eapply all_set_password; eassumption|].
+  split; [intros x u' H1 H2 H3; eapply all_set_username; eassumption|].
+  split; [intros x u' H1 H2 H3 H4; eapply all_set_path; eassumption | intros x u' H1 H2 H3 H4 H5; eapply all_set_host; eassumption].
 Qed.
 
 (* C06 for every record of a ReachC6 history: a failing call leaves the record (atomic_all: every record), and a
    successful call in the classes above has frame, get-after-set, parser agreement, and stays in the class *)
-Theorem all_reach dbg hp hpo hd u : HostOK2 hp hpo hd -> ReachC6 dbg hp hpo hd u ->
+Theorem all_reach dbg hp hpo hd u : HostRT hp hpo hd -> host_above hp hpo hd -> ReachC6 dbg hp hpo hd u ->
   Canon hp hpo hd u /\ wfh u /\ auth_end_ok u /\ all_calls dbg hp hpo hd u.
 Proof.
-  intros HOK R. pose proof (ReachC6_Canon dbg hp hpo hd HOK u R) as C.
-  split; [exact C|]. split; [exact (Canon_wfh dbg hp hpo hd HOK u C)|]. split; [exact (Canon_auth_end_ok hp hpo hd u C)|].
-  exact (all_canon dbg hp hpo hd u HOK C).
+  intros HRT HAb R. pose proof (ReachC6_Canon dbg hp hpo hd HRT HAb u R) as C.
+  split; [exact C|]. split; [eapply Canon_wfh; eassumption|]. split; [exact (Canon_auth_end_ok hp hpo hd u C)|].
+  exact (all_canon dbg hp hpo hd u HRT HAb C).
 Qed.
+
+(* C02's histories are among them *)
+Theorem reach_c2_all dbg hp hpo hd u : HostRT hp hpo hd -> host_above hp hpo hd -> ReachC2 dbg hp hpo hd u ->
+  Canon hp hpo hd u /\ wfh u /\ auth_end_ok u /\ all_calls dbg hp hpo hd u.
+Proof. intros HRT HAb R. exact (all_reach dbg hp hpo hd u HRT HAb (ReachC2_C6 dbg hp hpo hd u R)). Qed.
